@@ -118,7 +118,7 @@ impl Condvar {
             st.condvars[cv].push_back(me);
             st.threads[me].notified = false;
             st.threads[me].timed_out = false;
-            dur.map(|d| st.clock.saturating_add(d.as_nanos() as u64))
+            dur.map(|d| st.clock.saturating_add(super::time::ns_saturating(d)))
         });
         let g = guard.g.take();
         drop(g);
